@@ -137,13 +137,9 @@ impl Harness for EgBfs {
         let icmp = rig.sockets.add(s);
         let dns = rig.sockets.add(dns::Socket::new(&[ipa(&peer(cfg.v6))], vec![]));
         rig.settle();
-        let n = rig.log.len();
-        let mut h = EgBfs { cfg: cfg.clone(), rig, udp, icmp, dns, joined: false, slow: false, seq: 0, reported: 0 };
-        // frames of the initial polls (MLD reports for the solicited-node groups) are validated
-        // with the first event; nothing to report from a constructor
-        let _ = n;
-        h.reported = 0;
-        h
+        // the verdicts on the frames of the initial polls (MLD reports for the solicited-node
+        // groups) are handed out with the first event: a constructor has nowhere to report to
+        EgBfs { cfg: cfg.clone(), rig, udp, icmp, dns, joined: false, slow: false, seq: 0, reported: 0 }
     }
     fn enabled(&self) -> Vec<(BEv, u32)> {
         if self.rig.dead {
